@@ -282,6 +282,9 @@ func (w *World) runConcTxn(t *Thread, prog *TxnProg) {
 		return nil
 	})
 	delete(w.txns, tid)
+	if x.ttlPending {
+		w.ttl.pendingTTL--
+	}
 	if w.viol != nil {
 		return
 	}
@@ -356,6 +359,19 @@ func (w *World) concHook(c *column.Collection, latch *smutex.SMutex128, p uint8,
 		if bc := st.cur[tid][arg]; bc != nil {
 			bc.done = true
 			delete(st.cur[tid], arg)
+			if w.ttl != nil {
+				// the deadlines this commit stored are visible from now on
+				for _, o := range bc.mt.Ops {
+					if o.Off>>14 == arg && (o.Col == "expire" || o.Kind == mInsert) {
+						w.seq++
+						w.ttl.deadlineSeq[o.Off] = w.seq
+						if w.ttl.inPass && o.Col == "expire" {
+							w.noteTrigger("ttl-change-during-pass")
+							w.stats.probe("ttl-committed-during-cleanup-pass")
+						}
+					}
+				}
+			}
 		}
 	case uint8(column.SimBeforeLock):
 		// probe: another thread is parked between id draw and latch on the same block
